@@ -142,6 +142,15 @@ fn qkind(q: &Q) -> &'static str {
 }
 
 fn open_player(img: &[u8], split: Option<usize>, io: &crate::scenario::IoKnobs) -> Option<(Player, Vec<crate::simdisk::SimRef>)> {
+    open_player_via(img, split, io, 0)
+}
+
+/// `via` chooses the reader through which a media segment is opened: 0 = a reader that has seen
+/// the initialisation part only; 1 = a reader that was itself opened on this segment through the
+/// init reader (segments chained from reader to reader); 2 = a reader that has read the whole
+/// stream (init and fragments). The parent's own fragments are no part of "the file and the
+/// arguments" of the new reader, so all three must answer alike.
+fn open_player_via(img: &[u8], split: Option<usize>, io: &crate::scenario::IoKnobs, via: u8) -> Option<(Player, Vec<crate::simdisk::SimRef>)> {
     let knobs = |sim: &crate::simdisk::SimRef| sim.borrow_mut().set_transparent(io.chunking, io.intr_ppm, io.io_seed);
     match split {
         None => {
@@ -163,7 +172,28 @@ fn open_player(img: &[u8], split: Option<usize>, io: &crate::scenario::IoKnobs) 
             knobs(&ssim);
             let f = crate::simdisk::SimFile::new(&ssim);
             let slen = (img.len() - l) as u64;
-            match guard(|| init.reader.read_fragment_header(f, slen)) {
+            // a parent that cannot be had (the whole stream does not open) is no verdict on the
+            // segment: fall back to the init reader
+            let other: Option<Player> = match via {
+                1 => {
+                    let psim = Sim::shared(SimDisk::from_bytes(img[l..].to_vec()));
+                    let pf = crate::simdisk::SimFile::new(&psim);
+                    match guard(|| init.reader.read_fragment_header(pf, slen)) {
+                        Ok(Ok(reader)) => Some(Player { sim: psim.clone(), reader, api: 1 }),
+                        _ => None,
+                    }
+                }
+                2 => {
+                    let wsim = Sim::shared(SimDisk::from_bytes(img.to_vec()));
+                    match Player::open(&wsim, 0, img.len() as u64, 0) {
+                        Opened::Ok(p) => Some(p),
+                        _ => None,
+                    }
+                }
+                _ => None,
+            };
+            let parent = other.unwrap_or(init);
+            match guard(|| parent.reader.read_fragment_header(f, slen)) {
                 Ok(Ok(reader)) => Some((Player { sim: ssim.clone(), reader, api: 1 }, vec![isim, ssim])),
                 _ => None,
             }
@@ -338,7 +368,16 @@ impl Prop for C15 {
         };
         st.inc(&format!("image.{}", match &case.src { IoSrc::Mux(_) => "mux", IoSrc::Seed(s) => s.class() }));
         // ---- parsing twice gives equal structures
-        let Some((mut p, sims)) = open_player(&img, split, &case.io) else {
+        // a segment is opened through one of three parents (see open_player_via); the second
+        // opening below and every fresh reader go through the plain init reader
+        let via = if split.is_some() { ((case.calls.len() / 2) % 3) as u8 } else { 0 };
+        if via > 0 {
+            st.inc(if via == 1 { "probe.segment_opened_through_a_segment_reader" } else { "probe.segment_opened_through_a_whole_stream_reader" });
+        }
+        let Some((mut p, sims)) = open_player_via(&img, split, &case.io, via) else {
+            if via > 0 && open_player(&img, split, &case.io).is_some() {
+                out.push(Violation::new(prop, "parent_dependent_open", &format!("via={via}"), "a segment that opens through the init reader does not open through a reader that already holds fragments".to_string()));
+            }
             st.inc("image_does_not_open");
             return out;
         };
